@@ -233,6 +233,36 @@ def correspond(ctx, scale):
                                  '(the codebook no longer equals running sum / smoothed count of the same store)', 'case': dict(kw=kw_t)})
         except Exception as ex:
             failures.append({'key': f'vq-tied-codebooks:exception:{type(ex).__name__}', 'what': repr(ex), 'case': dict(cos=cos_t)})
+    # the TRAINING call that k-means-initialises the codebook (round 11, seed C03-k): it is an ordinary EMA step FROM the k-means state - counts and sums
+    # move by (1 - decay) toward the batch's own assignment counts / assigned-vector sums (k-means that has not converged leaves them different), the
+    # codebook is renormalised.  The state right after the initialisation is observed by wrapping init_embed_ for the duration of the call.
+    import copy as _copy
+    for ki in range((12 if not ctx.thorough else 48) * scale):
+        cos_k = ki % 2 == 1
+        iters_k = [1, 2, 10][(ki // 2) % 3]
+        decay_k = [0.8, 0.5, 0.0, 0.25][(ki // 6) % 4]
+        heads_k = [1, 2][(ki // 3) % 2]
+        kw_k = dict(dim=2 * heads_k, codebook_dim=2, heads=heads_k, separate_codebook_per_head=(heads_k == 2), codebook_size=[4, 6][ki % 2], kmeans_init=True, kmeans_iters=iters_k,
+                    decay=decay_k, use_cosine_sim=cos_k, threshold_ema_dead_code=0)
+        try:
+            torch.manual_seed(5100 + ki)
+            vq_k = VectorQuantize(**kw_k)
+            vq_k.train()
+            x_k = torch.randn(2, 24, 2 * heads_k)
+            ret_k, recs_k = vqrec.record_call(vq_k, x_k)
+            evaluations += 1
+            dist['kmeans_first_training_calls'] = dist.get('kmeans_first_training_calls', 0) + 1
+            r0 = recs_k[0]
+            if r0.before['initted'] or r0.after_init is None or not r0.after_init['initted']:
+                failures.append({'key': 'vq-kmeans-first-train:not-initialised-in-call', 'what': f'VectorQuantize({kw_k}): the first training call did not initialise the codebook', 'case': dict(kw=kw_k)})
+                continue
+            r1 = _copy.copy(r0)
+            r1.before = r0.after_init
+            for h_ in range(r1.H):
+                cases_extra.append(update_term(r1, h_, vq_k._codebook, cos_k, Fraction(1, 10 ** 4), Fraction(1, 10 ** 4)))
+                meta_extra.append(dict(kind='vq-kmeans-first-training-call', kw=kw_k, step=0, head=h_, mode='train'))
+        except Exception as ex:
+            failures.append({'key': f'vq-kmeans-first-train:exception:{type(ex).__name__}', 'what': repr(ex)[:300], 'case': dict(kw=kw_k)})
     rv_cases, rv_meta = rv_cases + cases_extra, rv_meta + meta_extra
     rv_cases, rv_meta = rv_cases + cc_cases, rv_meta + cc_meta
     bad, broken = core.run_cases(ctx, 'c03', HEADER, cases + rv_cases, per_file=40)
